@@ -15,12 +15,18 @@ func verif_forall2[A, B any](f func(A, B) bool) bool { return true }
 
 // ---- ghost state (updated by the assumed contracts of go-diameter and mongoapi) -----------
 var (
-	ghostUnmarshalled any                          // destination of the last Message.Unmarshal
-	ghostUnmarshalErr error                        // its result
-	ghostMarshalled   any                          // value of the last Message.Marshal
-	ghostWrites       int                          // number of Message.WriteTo calls
-	ghostQuota        map[string]map[uint32]string // account balance (decimal string) per (ueId, ratingGroup)
+	ghostUnmarshalled any                // destination of the last Message.Unmarshal
+	ghostUnmarshalErr error              // its result
+	ghostMarshalled   any                // value of the last Message.Marshal
+	ghostWrites       int                // number of Message.WriteTo calls
+	ghostQuota        map[specKey]string // account balance (decimal string) per (ueId, ratingGroup)
 )
+
+// specKey: key of the account table
+type specKey struct {
+	Ue string
+	Rg uint32
+}
 
 func specReq() *charging_datatype.AccountDebitRequest {
 	return ghostUnmarshalled.(*charging_datatype.AccountDebitRequest)
@@ -32,28 +38,37 @@ func specAns() *charging_datatype.AccountDebitResponse {
 
 // specNames: the request was decoded, carries the mandatory AVPs and names account (ue, rg)
 func specNames(r *charging_datatype.AccountDebitRequest, ue string, rg uint32) bool {
-	return ghostUnmarshalErr == nil && r.SubscriptionId != nil && r.MultipleServicesCreditControl != nil &&
-		r.SubscriptionId.SubscriptionIdType == charging_datatype.END_USER_IMSI &&
-		ue == "imsi-"+string(r.SubscriptionId.SubscriptionIdData) && rg == uint32(r.MultipleServicesCreditControl.RatingGroup)
+	if ghostUnmarshalErr != nil || r.SubscriptionId == nil || r.MultipleServicesCreditControl == nil ||
+		rg != uint32(r.MultipleServicesCreditControl.RatingGroup) {
+		return false
+	}
+	if r.SubscriptionId.SubscriptionIdType == charging_datatype.END_USER_IMSI {
+		return ue == "imsi-"+string(r.SubscriptionId.SubscriptionIdData)
+	}
+	return ue == "" // other identity types are looked up under the empty subscriber id
 }
 
-// specAcct: account (ue, rg) exists with a well-formed, non-negative balance
+// specAcct: account (ue, rg) exists with a well-formed balance
 func specAcct(ue string, rg uint32) bool {
-	m, ok := ghostQuota[ue]
+	q, ok := ghostQuota[specKey{ue, rg}]
 	if !ok {
 		return false
 	}
-	q, ok := m[rg]
-	if !ok {
-		return false
-	}
-	v, err := strconv.ParseInt(q, 10, 64)
-	return err == nil && v >= 0
+	_, err := strconv.ParseInt(q, 10, 64)
+	return err == nil
 }
+
+// specHas / specEntry: presence and raw stored string of account (ue, rg)
+func specHas(ue string, rg uint32) bool {
+	_, ok := ghostQuota[specKey{ue, rg}]
+	return ok
+}
+
+func specEntry(ue string, rg uint32) string { return ghostQuota[specKey{ue, rg}] }
 
 // specBal: the stored balance of account (ue, rg)
 func specBal(ue string, rg uint32) int64 {
-	v, _ := strconv.ParseInt(ghostQuota[ue][rg], 10, 64)
+	v, _ := strconv.ParseInt(ghostQuota[specKey{ue, rg}], 10, 64)
 	return v
 }
 
@@ -80,3 +95,27 @@ func specMin(a, b int64) int64 {
 //@   assume "switch ccr.SubscriptionId.SubscriptionIdType": ccr.RequestedAction == charging_datatype.DIRECT_DEBITING && ccr.CcRequestType == charging_datatype.TERMINATION_REQUEST ==> ccr.MultipleServicesCreditControl.UsedServiceUnit != nil && int64(ccr.MultipleServicesCreditControl.UsedServiceUnit.CCTotalOctets) >= 0
 //@   ensures forall ue string, rg uint32 :: specNames(specReq(), ue, rg) && old(specAcct(ue, rg)) ==> ghostWrites == old(ghostWrites) + 1
 //@   ensures forall ue string, rg uint32 :: specNames(specReq(), ue, rg) && old(specAcct(ue, rg)) ==> specAns().SessionId == specReq().SessionId && specAns().CcRequestType == specReq().CcRequestType && specAns().CcRequestNumber == specReq().CcRequestNumber
+//@   ensures forall ue string, rg uint32 :: specNames(specReq(), ue, rg) && old(specAcct(ue, rg)) && old(specBal(ue, rg)) >= 0 && specIsReserve(specReq()) ==> specAns().MultipleServicesCreditControl != nil && specAns().MultipleServicesCreditControl.GrantedServiceUnit != nil && specGranted(specAns()) == specMin(specReqUnits(specReq()), old(specBal(ue, rg)))
+//@   ensures forall ue string, rg uint32 :: specNames(specReq(), ue, rg) && old(specAcct(ue, rg)) && old(specBal(ue, rg)) >= 0 && specIsReserve(specReq()) ==> specAcct(ue, rg) && specBal(ue, rg) == old(specBal(ue, rg))-specGranted(specAns()) && specBal(ue, rg) >= 0
+//@   ensures forall ue string, rg uint32 :: specNames(specReq(), ue, rg) && old(specAcct(ue, rg)) && old(specBal(ue, rg)) >= 0 && specIsReserve(specReq()) ==> (specAns().MultipleServicesCreditControl.FinalUnitIndication != nil) == (specReqUnits(specReq()) > old(specBal(ue, rg)))
+
+//@   ensures forall ue string, rg uint32 :: specNames(specReq(), ue, rg) && old(specAcct(ue, rg)) && specReq().RequestedAction == charging_datatype.REFUND_ACCOUNT && old(specBal(ue, rg))+specReqUnits(specReq()) >= old(specBal(ue, rg)) ==> specAcct(ue, rg) && specBal(ue, rg) == old(specBal(ue, rg))+specReqUnits(specReq())
+//@   ensures forall ue string, rg uint32 :: specNames(specReq(), ue, rg) && old(specAcct(ue, rg)) && specReq().RequestedAction == charging_datatype.DIRECT_DEBITING && specReq().CcRequestType == charging_datatype.TERMINATION_REQUEST && old(specBal(ue, rg))-specUsedUnits(specReq()) <= old(specBal(ue, rg)) ==> specAcct(ue, rg) && specBal(ue, rg) == old(specBal(ue, rg))-specUsedUnits(specReq())
+//@   ensures forall u string, g uint32 :: !(specNames(specReq(), u, g) && old(specAcct(u, g))) ==> specHas(u, g) == old(specHas(u, g)) && specEntry(u, g) == old(specEntry(u, g))
+
+// ---- exact balance arithmetic (C07) -----------------------------------------------------
+
+func specReqUnits(r *charging_datatype.AccountDebitRequest) int64 {
+	return int64(r.MultipleServicesCreditControl.RequestedServiceUnit.CCTotalOctets)
+}
+
+func specUsedUnits(r *charging_datatype.AccountDebitRequest) int64 {
+	return int64(r.MultipleServicesCreditControl.UsedServiceUnit.CCTotalOctets)
+}
+
+func specGranted(a *charging_datatype.AccountDebitResponse) int64 {
+	return int64(a.MultipleServicesCreditControl.GrantedServiceUnit.CCTotalOctets)
+}
+
+// reservation (DIRECT_DEBITING, INITIAL/UPDATE): grant = min(requested, balance), balance lowered by the grant,
+// never below zero, final-unit indication exactly when the request exceeded the balance
